@@ -56,6 +56,7 @@ def parse : List String → Option (Option Ev)
   | ["pset", m, v] => if m = "c" ∨ m = "m" then v.toInt?.map (fun v => some (.pset v)) else none
   | ["pdef"] => some none                 -- `X{}` temporary of the destructor (its move is the `pset`)
   | ["yld"] => some none
+  | ["ptmp"] => some none                 -- stack temporary of X inside the library
   | "pld" :: n :: _ => if isMapName n then some (some .acc) else none
   | "pst" :: n :: _ => if isMapName n then some (some .acc) else none
   | ["got", p, "broken"] => p.toNat?.map (fun p => some (.got p .broken))
